@@ -51,9 +51,36 @@ def reference(ctx, ob, ctrl, prog, scr):
     ok = ctx.branch(z3.And(stubs.XPARSE(stubs.cat(ctrl[1:33], 8)), stubs.TWEAKCHK(stubs.cat(prog, 8), simp(z3.Extract(0, 0, B(ctrl[0]))), stubs.cat(ctrl[1:33], 8), stubs.cat(tweak, 8))))
     return ks, ok
 
+def make_ground(ob, ctrl, prog, scr):
+    """level-by-level grounding of the hash chain: fix the inputs a level depends on, tie the UF to the real SHA-256 there, re-solve for the rest"""
+    m = ob['m']
+    def ground(sol, model):
+        cur = model
+        for j in range(m + 2):
+            cv = sesslib.concretize(cur, dict(ctrl=ctrl, scr=scr))
+            c, s = cv['ctrl'], cv['scr']
+            ks = bip341_concrete(c, None, s, min(j, m))
+            cons = [bv(x, 8) == v for x, v in zip(scr, s)] + [bv(ctrl[0], 8) == c[0]]
+            cons += hashref.ground_sha256(bytes([c[0] & 0xfe]) + bytes(hashref.compact_size(len(s))) + bytes(s), b'TapLeaf')
+            for lvl in range(min(j, m)):
+                node = bytes(c[33 + 32 * lvl: 65 + 32 * lvl])
+                cons += [bv(x, 8) == v for x, v in zip(ctrl[33 + 32 * lvl: 65 + 32 * lvl], node)]
+                cons += hashref.ground_sha256(ks[lvl] + node, b'TapBranch') + hashref.ground_sha256(node + ks[lvl], b'TapBranch')
+            if j == m + 1:
+                cons += [bv(x, 8) == v for x, v in zip(ctrl[1:33], c[1:33])] + hashref.ground_sha256(bytes(c[1:33]) + ks[m], b'TapTweak')
+            sol.push()
+            for cn in cons: sol.add(cn)
+            r = sol.check()
+            if r != z3.sat: sol.pop(); return cur if j > 0 else None
+            cur = sol.model(); sol.pop()
+            for cn in cons: sol.add(cn)
+        return cur
+    return ground
+
 def run(E, ob):
     ctrl, prog, scr = mk(ob); m = ob['m']
     inputs = dict(ctrl=ctrl, prog=prog, scr=scr)
+    ground = make_ground(ob, ctrl, prog, scr)
     if ob['kind'] == 'tce':
         spec = [('in', ctrl), ('u32', len(ctrl)), ('in', prog), ('in', scr), ('u32', len(scr)), ('out', 32 * (m + 3)), ('out', 32), ('out', 4)]
         def io(E_, f, ret, outs):
@@ -64,7 +91,7 @@ def run(E, ob):
         def ref(ctx):
             ks, ok = reference(ctx, ob, ctrl, prog, scr)
             return dict(state=3 if ok else 1, nsteps=m + 1, leaf=ks[0], ks=ks)
-        return hlib.flat_check(E, ob['name'], 'w_tce', spec, io, ref, [], inputs, lambda a, b: 'C05:tce:' + ('state' if isinstance(a, dict) and a.get('state') != b.get('state') else 'hash'))
+        return hlib.flat_check(E, ob['name'], 'w_tce', spec, io, ref, [], inputs, lambda a, b: 'C05:tce:' + ('state' if isinstance(a, dict) and a.get('state') != b.get('state') else 'hash'), ground=ground)
     spec = [('in', ctrl), ('u32', len(ctrl)), ('in', prog), ('in', scr), ('u32', len(scr)), ('u32', m + 4), ('out', 12 * (m + 5)), ('out', 40)]
     def io(E_, f, ret, outs):
         if ret is None: return ('crash', f.result[1] if f.result else 'none', f.result[2] if f.result and len(f.result) > 2 else '')
@@ -76,7 +103,7 @@ def run(E, ob):
         ks, ok = reference(ctx, ob, ctrl, prog, scr)
         steps = [[1, i + 1, 1] for i in range(m)] + ([[1, m + 1, 0]] if ok else [[0, m, 1]])
         return dict(steps=steps, leaf=ks[0] if ok else '*', at_start=1)
-    return hlib.flat_check(E, ob['name'], 'w_tce_session', spec, io, ref, [], inputs, lambda a, b: 'C05:session')
+    return hlib.flat_check(E, ob['name'], 'w_tce_session', spec, io, ref, [], inputs, lambda a, b: 'C05:session', ground=ground)
 
 def concrete_run(lib, ob, V):
     ctrl, prog, scr = mk(ob, V); m = ob['m']
